@@ -191,6 +191,8 @@ struct WInner {
 pub struct W {
     inner: Mutex<WInner>,
     pub controlled: bool,
+    /// Scheduler handle for input methods that take no context (time reads).
+    sched: Mutex<Option<Scheduler>>,
 }
 
 impl W {
@@ -201,7 +203,18 @@ impl W {
                 ..Default::default()
             }),
             controlled,
+            sched: Mutex::new(None),
         })
+    }
+    pub fn set_sched(&self, s: Option<Scheduler>) {
+        *self.sched.lock().unwrap() = s;
+    }
+    /// Simulation time (offset) as seen through the scheduler handle.
+    pub fn time_now(&self) -> i64 {
+        match &*self.sched.lock().unwrap() {
+            Some(s) => off(s.time()),
+            None => panic!("harness: a context-free input method ran before the scheduler handle was available"),
+        }
     }
     pub fn log(&self, ev: Ev) {
         self.inner.lock().unwrap().log.push(ev);
@@ -471,9 +484,49 @@ pub enum Placement {
     Dropped,
 }
 
+/// Which form of input method receives the events addressed to a node.
+#[derive(Clone, Copy, Debug, PartialEq, Eq, Hash, Default)]
+pub enum Flavour {
+    /// `async fn(&mut self, T, &mut Context<Self>)`
+    #[default]
+    AsyncCx,
+    /// `fn(&mut self, T, &mut Context<Self>)`
+    SyncCx,
+    /// `fn(&mut self, T)`
+    SyncPlain,
+    /// `async fn(&mut self, T)`
+    AsyncPlain,
+}
+
+/// Evaluates `$e` with `$f` bound to the input method of the given flavour.
+macro_rules! with_input {
+    ($fl:expr, $f:ident => $e:expr) => {
+        match $fl {
+            Flavour::AsyncCx => {
+                let $f = Node::on_event;
+                $e
+            }
+            Flavour::SyncCx => {
+                let $f = Node::on_event_sync;
+                $e
+            }
+            Flavour::SyncPlain => {
+                let $f = Node::on_event_plain;
+                $e
+            }
+            Flavour::AsyncPlain => {
+                let $f = Node::on_event_aplain;
+                $e
+            }
+        }
+    };
+}
+
 #[derive(Clone, Debug, PartialEq, Eq, Hash)]
 pub struct NodeSpec {
     pub name: String,
+    /// Form of the input method used for events sent or scheduled to this node.
+    pub flavour: Flavour,
     pub cap: usize,
     pub parent: Option<usize>,
     pub placement: Placement,
@@ -496,6 +549,7 @@ impl NodeSpec {
     pub fn new(name: &str, cap: usize) -> Self {
         NodeSpec {
             name: name.to_string(),
+            flavour: Flavour::AsyncCx,
             cap,
             parent: None,
             placement: Placement::Added,
@@ -507,6 +561,10 @@ impl NodeSpec {
             share_out: None,
             share_conns: vec![],
         }
+    }
+    pub fn flavour(mut self, f: Flavour) -> Self {
+        self.flavour = f;
+        self
     }
     pub fn script(mut self, tag: u16, ops: Vec<Op>) -> Self {
         self.scripts.insert(tag, ops);
@@ -650,6 +708,70 @@ impl Node {
     pub async fn on_event(&mut self, msg: Msg, cx: &mut Context<Self>) {
         self.handle(msg, cx, false).await;
     }
+    pub fn on_event_sync(&mut self, msg: Msg, cx: &mut Context<Self>) {
+        let t = off(cx.time());
+        self.handle_sync(msg, t, Some(cx));
+    }
+    pub fn on_event_plain(&mut self, msg: Msg) {
+        let t = self.w.time_now();
+        self.handle_sync(msg, t, None);
+    }
+    pub async fn on_event_aplain(&mut self, msg: Msg) {
+        let t = self.w.time_now();
+        self.handle_sync(msg, t, None);
+    }
+    /// Non-suspending handler body: the operations of the script that need no await.
+    fn handle_sync(&mut self, msg: Msg, t: i64, mut cx: Option<&mut Context<Self>>) {
+        let w = self.w.clone();
+        let node = self.idx;
+        w.log(Ev::HS { node, id: msg.id, tag: msg.tag, val: msg.val, t, q: false });
+        let spec = self.spec.clone();
+        if let Some(ops) = spec.nodes[self.idx].scripts.get(&msg.tag) {
+            for op in ops {
+                match *op {
+                    Op::Sched { kind, when, tag, val, slot } => {
+                        let Some(cx) = cx.as_deref_mut() else { panic!("harness: Sched in a context-free handler") };
+                        let id = w.fresh_id();
+                        let v = eval(val, msg.val);
+                        let now = off(cx.time());
+                        let at = deadline_of(when, now);
+                        let m = Msg::new(&w, id, tag, v);
+                        let res = sched_on_ctx(cx, &w, kind, when, m, slot, id, spec.nodes[node].flavour);
+                        w.log(Ev::Sched { by: Some(node), id, kind, at, now, target: Target::Node(node), tag, val: v, res });
+                    }
+                    Op::Cancel { slot } => {
+                        if let Some((key, id)) = w.take_key(slot) {
+                            key.cancel();
+                            w.log(Ev::Cancel { by: Some(node), id });
+                        }
+                    }
+                    Op::CancelClone { slot } => {
+                        if let Some((key, id)) = w.clone_key(slot) {
+                            key.cancel();
+                            w.log(Ev::Cancel { by: Some(node), id });
+                        }
+                    }
+                    Op::DropAuto { slot } => {
+                        if let Some((key, id)) = w.take_auto_key(slot) {
+                            drop(key);
+                            w.log(Ev::Cancel { by: Some(node), id });
+                        }
+                    }
+                    Op::ReadTime => {
+                        let t = match cx.as_deref_mut() {
+                            Some(cx) => off(cx.time()),
+                            None => w.time_now(),
+                        };
+                        w.log(Ev::TimeRead { node, t });
+                    }
+                    Op::Yield => {}
+                    ref other => panic!("harness: operation {:?} needs an async handler with a context", other),
+                }
+            }
+        }
+        w.log(Ev::HE { node, id: msg.id });
+        drop(msg);
+    }
     pub async fn on_query(&mut self, msg: Msg, cx: &mut Context<Self>) -> Reply {
         let (id, val) = (msg.id, msg.val);
         self.handle(msg, cx, true).await;
@@ -749,7 +871,7 @@ impl Node {
                     let now = off(cx.time());
                     let at = deadline_of(when, now);
                     let msg = Msg::new(&w, id, tag, v);
-                    let res = sched_on_ctx(cx, &w, kind, when, msg, slot, id);
+                    let res = sched_on_ctx(cx, &w, kind, when, msg, slot, id, self.spec.nodes[node].flavour);
                     w.log(Ev::Sched {
                         by: Some(node),
                         id,
@@ -828,28 +950,24 @@ fn sched_on_ctx(
     msg: Msg,
     slot: usize,
     id: u32,
+    flavour: Flavour,
 ) -> Result<(), SE> {
     macro_rules! go {
         ($dl:expr) => {
-            match kind {
-                SKind::Once => cx.schedule_event($dl, Node::on_event, msg).map_err(se),
+            with_input!(flavour, f => match kind {
+                SKind::Once => cx.schedule_event($dl, f, msg).map_err(se),
                 SKind::Keyed => cx
-                    .schedule_keyed_event($dl, Node::on_event, msg)
+                    .schedule_keyed_event($dl, f, msg)
                     .map(|k| w.store_key(slot, k, id))
                     .map_err(se),
                 SKind::Periodic(p) => cx
-                    .schedule_periodic_event($dl, Duration::from_nanos(p), Node::on_event, msg)
+                    .schedule_periodic_event($dl, Duration::from_nanos(p), f, msg)
                     .map_err(se),
                 SKind::KeyedPeriodic(p) => cx
-                    .schedule_keyed_periodic_event(
-                        $dl,
-                        Duration::from_nanos(p),
-                        Node::on_event,
-                        msg,
-                    )
+                    .schedule_keyed_periodic_event($dl, Duration::from_nanos(p), f, msg)
                     .map(|k| w.store_key(slot, k, id))
                     .map_err(se),
-            }
+            })
         };
     }
     match when {
@@ -942,6 +1060,7 @@ pub struct Built {
     pub qsrcs: Vec<QuerySource<Msg, Reply>>,
     pub orphans: Vec<Mailbox<Node>>,
     pub init_res: Res,
+    pub flavours: Vec<Flavour>,
 }
 
 fn conv_err(e: ExecutionError) -> E {
@@ -971,11 +1090,11 @@ fn conv_err(e: ExecutionError) -> E {
     }
 }
 
-fn connect_out(out: &mut Output<Msg>, conns: &[Conn], addrs: &[Address<Node>], bufs: &[EventBuffer<Msg>], slots: &[EventSlot<Msg>]) {
+fn connect_out(out: &mut Output<Msg>, conns: &[Conn], addrs: &[Address<Node>], bufs: &[EventBuffer<Msg>], slots: &[EventSlot<Msg>], fl: &[Flavour]) {
     for c in conns {
         match *c {
             Conn::To { node, mode } => match mode {
-                Mode::Plain => out.connect(Node::on_event, &addrs[node]),
+                Mode::Plain => with_input!(fl[node], f => out.connect(f, &addrs[node])),
                 Mode::Map(_) => out.map_connect(
                     move |m: &Msg| {
                         let mut m = m.clone();
@@ -1102,11 +1221,11 @@ pub fn expected_replies(conns: &[Conn], v: i64) -> Vec<(usize, i64)> {
     out
 }
 
-fn connect_src(src: &mut EventSource<Msg>, conns: &[Conn], addrs: &[Address<Node>]) {
+fn connect_src(src: &mut EventSource<Msg>, conns: &[Conn], addrs: &[Address<Node>], fl: &[Flavour]) {
     for c in conns {
         if let Conn::To { node, mode } = *c {
             match mode {
-                Mode::Plain => src.connect(Node::on_event, &addrs[node]),
+                Mode::Plain => with_input!(fl[node], f => src.connect(f, &addrs[node])),
                 Mode::Map(_) => src.map_connect(
                     move |m: &Msg| {
                         let mut m = m.clone();
@@ -1206,13 +1325,14 @@ pub fn build(spec: &Arc<BenchSpec>, w: &Arc<W>) -> Built {
         .collect();
     let slots: Vec<EventSlot<Msg>> = (0..spec.slots).map(|_| EventSlot::new()).collect();
 
+    let fl: Vec<Flavour> = spec.nodes.iter().map(|n| n.flavour).collect();
     // Ports.
     let mut outs_all: Vec<Vec<Output<Msg>>> = Vec::new();
     for s in spec.nodes.iter() {
         let mut outs = vec![];
         for conns in &s.outs {
             let mut o = Output::new();
-            connect_out(&mut o, conns, &addrs, &bufs, &slots);
+            connect_out(&mut o, conns, &addrs, &bufs, &slots, &fl);
             outs.push(o);
         }
         outs_all.push(outs);
@@ -1221,7 +1341,7 @@ pub fn build(spec: &Arc<BenchSpec>, w: &Arc<W>) -> Built {
     for i in 0..n {
         if let Some((src_node, src_port)) = spec.nodes[i].share_out {
             let mut o = outs_all[src_node][src_port].clone();
-            connect_out(&mut o, &spec.nodes[i].share_conns, &addrs, &bufs, &slots);
+            connect_out(&mut o, &spec.nodes[i].share_conns, &addrs, &bufs, &slots, &fl);
             outs_all[i].push(o);
         }
     }
@@ -1290,7 +1410,7 @@ pub fn build(spec: &Arc<BenchSpec>, w: &Arc<W>) -> Built {
     let mut srcs = vec![];
     for conns in &spec.srcs {
         let mut s = EventSource::new();
-        connect_src(&mut s, conns, &addrs);
+        connect_src(&mut s, conns, &addrs, &fl);
         srcs.push(s);
     }
     let mut qsrcs = vec![];
@@ -1371,6 +1491,9 @@ pub fn build(spec: &Arc<BenchSpec>, w: &Arc<W>) -> Built {
     let (simu, sched, res) = match r {
         Ok(Ok((simu, sched))) => {
             *clock_handle.lock().unwrap() = Some((sched.clone(), addrs.clone()));
+            if fl.iter().any(|f| matches!(f, Flavour::SyncPlain | Flavour::AsyncPlain)) {
+                w.set_sched(Some(sched.clone()));
+            }
             let t = off(simu.time());
             w.log(Ev::Ret(0, Res::Ok, t));
             (Some(simu), Some(sched), Res::Ok)
@@ -1397,6 +1520,7 @@ pub fn build(spec: &Arc<BenchSpec>, w: &Arc<W>) -> Built {
         qsrcs,
         orphans,
         init_res: res,
+        flavours: spec.nodes.iter().map(|n| n.flavour).collect(),
     }
 }
 
@@ -1540,7 +1664,8 @@ fn exec_cmd_inner(b: &mut Built, cmd: &Cmd) -> Res {
         Cmd::ProcEvent { node, tag, val } => {
             let id = w.fresh_id();
             w.log(Ev::SendS { node: usize::MAX, port: *node, id, val: *val });
-            to_res(simu.process_event(Node::on_event, Msg::new(&w, id, *tag, *val), &b.addrs[*node]))
+            let flavour = b.flavours[*node];
+            with_input!(flavour, f => to_res(simu.process_event(f, Msg::new(&w, id, *tag, *val), &b.addrs[*node])))
         }
         Cmd::ProcQuery { node, tag, val } => {
             let id = w.fresh_id();
@@ -1558,28 +1683,23 @@ fn exec_cmd_inner(b: &mut Built, cmd: &Cmd) -> Res {
             let at = deadline_of(*when, now);
             let msg = Msg::new(&w, id, *tag, *val);
             let addr = &b.addrs[*node];
+            let flavour = b.flavours[*node];
             macro_rules! go {
                 ($dl:expr) => {
-                    match *kind {
-                        SKind::Once => sched.schedule_event($dl, Node::on_event, msg, addr).map_err(se),
+                    with_input!(flavour, f => match *kind {
+                        SKind::Once => sched.schedule_event($dl, f, msg, addr).map_err(se),
                         SKind::Keyed => sched
-                            .schedule_keyed_event($dl, Node::on_event, msg, addr)
+                            .schedule_keyed_event($dl, f, msg, addr)
                             .map(|k| w.store_key(*slot, k, id))
                             .map_err(se),
                         SKind::Periodic(p) => sched
-                            .schedule_periodic_event($dl, Duration::from_nanos(p), Node::on_event, msg, addr)
+                            .schedule_periodic_event($dl, Duration::from_nanos(p), f, msg, addr)
                             .map_err(se),
                         SKind::KeyedPeriodic(p) => sched
-                            .schedule_keyed_periodic_event(
-                                $dl,
-                                Duration::from_nanos(p),
-                                Node::on_event,
-                                msg,
-                                addr,
-                            )
+                            .schedule_keyed_periodic_event($dl, Duration::from_nanos(p), f, msg, addr)
                             .map(|k| w.store_key(*slot, k, id))
                             .map_err(se),
-                    }
+                    })
                 };
             }
             let res = match *when {
@@ -1738,6 +1858,7 @@ pub fn run_once(sc: &Scenario, prefix: &[u16], controlled: bool) -> RunOut {
     }
     drop(w.take_parked());
     w.clear_keys();
+    w.set_sched(None);
     let Built { sched, addrs, bufs: bb, slots: ss, srcs, qsrcs, orphans, .. } = b;
     drop(sched);
     drop(srcs);
